@@ -98,5 +98,19 @@ CHECKS = {
         'for one (circuit, root) must agree after normalising instance suffixes and declaration order, and a generation that raises must also raise for a fresh copy of the circuit.',
    note='Trusted: the snapshot covers children, ports, wires (values, sources, sinks), leaf attributes and Wire.prepared; Div/Mod/SignedDiv blocks are excluded (documented random output on zero divisor).',
    ref='DESIGN.md section 4 C19'),
+ 'C11': dict(level='fault_enumeration', engine='construction-plan executor with an independent name/driver model (vlib/c11*.py)',
+   technique='runtime reference-model monitor over generated construction sequences with one injected fault (20 fault kinds), plus integrity check over catalogue blocks with single-driver faults',
+   text='Generated construction plans (wire creation, instantiation, rename, reparent, interface expansion) are executed on the real library in lockstep with an independent model of names and '
+        'drivers; the faulting call must raise and the earlier driver/child/wire must stay in place (compared by identity), fault-free plans must not raise. checkIntegrity is run on every catalogue block '
+        'nested 0-5 levels with all port wires driven (must return) and with exactly one driver removed or one port wire left undriven (must raise); expected verdicts come from the plan.',
+   note='Trusted: the plan model; half-registered newcomers of refused calls, BidirWire drivers, detached ports and InOut ports are outside the statement and not judged.',
+   ref='DESIGN.md section 4 C11'),
+ 'C18': dict(level='exploration', engine='child-process schematic builder + object-graph checker (vlib/c18*.py)',
+   technique='offline checker over the recorded object graph of Schematic(obj) built in a child process under a step/time watchdog: symbol multiplicity, rectangle disjointness, per-wire connectivity at pin level',
+   text='Every structural catalogue block, the FP/fixed-point and sequential structural blocks and generated netlists (fan-out, register feedback incl. self-loops, long forward edges) are placed and '
+        'routed by the real Schematic class in a child process; the resulting objs/nets/symbol_matrix are checked: one symbol per child and port, no overlaps, per wire one connected figure touching the '
+        'driving pin and every reading pin and no pin of another wire. A hang is attributed to its case by a watchdog and is a violation (termination is part of the property).',
+   note='Trusted: the graph checker; wires with zero or several drivers inside the block are excluded; swallowed internal exceptions are counted, the verdict comes from the resulting graph.',
+   ref='DESIGN.md section 4 C18'),
 }
 PENDING = {}
